@@ -1,7 +1,7 @@
 """C08 - actions: side effects once, in order, then RETURN/THROW once; the handler's only."""
 import os
 
-from engine import cc, cfg, lib
+from engine import facts, cc, cfg, lib
 from engine.auto import Explorer, fmt_trace, cond_shape
 from engine.facts import erase, short_loc, INCLUDE, CACHE
 from engine.lib import A, qe
@@ -315,8 +315,8 @@ int main() {}
 
 
 def c08g(ctx):
-    os.makedirs(os.path.join(CACHE, "gen"), exist_ok=True)
-    path = os.path.join(CACHE, "gen", "c08_types.cpp")
+    os.makedirs(facts.gen_dir(), exist_ok=True)
+    path = os.path.join(facts.gen_dir(), "c08_types.cpp")
     with open(path, "w") as fh:
         fh.write(WITNESS)
     cfgs = [("clang++", "c++17")] if ctx.tier == "quick" else [(c, s) for c in ("clang++", "g++")
